@@ -106,3 +106,67 @@ func RunLogCreationFaultCase(seed int64, workDir string) *HistResult {
 	}
 	return res
 }
+
+// RunLogNamePairCase (C19; seed C19-n): two tasks of one job whose names are related through the escaping that the file
+// output store applies to task names ("build/app" and "build%2Fapp", "load 100%" and "load 100%25"): the first writes
+// known output and fails, so the second - its dependent - never runs and has no output. What the store and the log API
+// return for the second task is nothing (or a refusal) - never the output of the first; the first task's output is exact.
+func RunLogNamePairCase(seed int64, workDir string) *HistResult {
+	res := &HistResult{Seed: seed, Situations: map[string]map[string]struct{}{}, Evaluations: map[string]int{}}
+	find := func(sig, format string, args ...any) {
+		res.Findings = append(res.Findings, Finding{Props: []string{"C19"}, Sig: sig, Detail: fmt.Sprintf(format, args...), Step: -1})
+	}
+	dir, err := os.MkdirTemp(workDir, "namepair-")
+	if err != nil {
+		res.Inconclusive = err.Error()
+		return res
+	}
+	defer os.RemoveAll(dir)
+	pairs := [][2]string{{"build/app", "build%2Fapp"}, {"load 100%", "load 100%25"}, {"a%b/c", "a%25b%2Fc"}, {"x/y", "x%2fy"}, {"plain", "plain-2"}}
+	pair := pairs[int(seed)%len(pairs)]
+	first, second := pair[0], pair[1]
+	def := definition.PipelineDef{Concurrency: 1, ContinueRunningTasksAfterFailure: seed%2 == 0, SourcePath: "gen", Tasks: map[string]definition.TaskDef{
+		first:  {Script: []string{"echo first-out", "echo first-err 1>&2", "exit 3"}},
+		second: {Script: []string{"echo second-out"}, DependsOn: []string{first}},
+	}}
+	specs := []gen.PipeSpec{{Name: "p", Def: def, Graph: gen.Graph{Names: []string{first, second}, Deps: map[string][]string{second: {first}}}}}
+	sys, out, _, err := realSys(specs, dir, 300*time.Millisecond)
+	if err != nil {
+		res.Inconclusive = err.Error()
+		return res
+	}
+	defer sys.Close()
+	api := core.NewAPI(sys.R, out, "0123456789abcdef-harness-secret", false)
+	id, cls := sys.Schedule(0, "p", nil, "u")
+	if cls != "ok" {
+		res.Inconclusive = "schedule: " + cls
+		return res
+	}
+	if !waitJobs(sys, []string{id}, 60*time.Second) {
+		res.Inconclusive = "watchdog: job did not finish"
+		return res
+	}
+	j, _ := sys.ReadJob(id)
+	res.sit("C19", fmt.Sprintf("task names related through the store's escaping (%q / %q): the second never ran", first, second))
+	res.Evaluations["C19"]++
+	if t := j.Task(second); t == nil || t.Start != nil {
+		res.Inconclusive = "the dependent of the failed task ran"
+		return res
+	}
+	so, e1 := readStore(out, id, first, "stdout")
+	se, e2 := readStore(out, id, first, "stderr")
+	if e1 != nil || e2 != nil || string(so) != "first-out\n" || string(se) != "first-err\n" {
+		find("C19:stored-output-differs-from-written-output", "task %q wrote \"first-out\\n\" / \"first-err\\n\", the store returns %q (%v) / %q (%v)", first, so, e1, se, e2)
+	}
+	for _, stream := range []string{"stdout", "stderr"} {
+		if b, err := readStore(out, id, second, stream); err == nil && len(b) > 0 {
+			find("C19:output-attributed-to-another-task", "task %q of the job never ran (its dependency %q failed), yet the store returns %q as its %s - that is what %q wrote", second, first, b, stream, first)
+		}
+	}
+	code, body := api.Do("GET", "/job/logs", url.Values{"id": {id}, "task": {second}}, nil)
+	var lr struct{ Stdout, Stderr string }
+	if code == 200 && json.Unmarshal(body, &lr) == nil && (lr.Stdout != "" || lr.Stderr != "") {
+		find("C19:output-attributed-to-another-task", "GET /job/logs for task %q, which never ran, answers %q / %q - the output of task %q", second, lr.Stdout, lr.Stderr, first)
+	}
+	return res
+}
